@@ -364,3 +364,19 @@ Qed.
     index order, so position [i] of the summary is instrument [i] *)
 Theorem imap_collect_nodup : forall {V} (l : imap V), NoDup (map fst l) -> imap_collect l = l.
 Proof. intros V l ND. unfold imap_collect. apply (imap_collect_acc l []). exact ND. Qed.
+
+(* ---- persist/restore steps --------------------------------------------------------------------------------- *)
+
+Theorem tsg_persist_invariant : forall ops g, fold_left tsg_step ops g = tsg_run (some_of ops) g.
+Proof.
+  unfold tsg_run. induction ops as [|[p|] ops IH]; intro g; [reflexivity| |];
+    unfold some_of in *; cbn [flat_map fold_left tsg_step app]; apply IH.
+Qed.
+
+Theorem sgen_persist_invariant : forall ops s, sgen_run_p ops s = sgen_run (some_of ops) s.
+Proof.
+  induction ops as [|[o|] ops IH]; intro s; [reflexivity| |]; unfold some_of in *;
+    cbn [flat_map sgen_run_p sgen_run app].
+  - destruct (sgen_step s o); [apply IH|reflexivity].
+  - apply IH.
+Qed.
